@@ -371,7 +371,7 @@ _CACHE: Dict[int, CFG] = {}
 
 def cfg_of(fn_node: ast.AST) -> CFG:
     c = _CACHE.get(id(fn_node))
-    if c is None:
+    if c is None or c.fn is not fn_node:
         c = CFG(fn_node)
         _CACHE[id(fn_node)] = c
     return c
